@@ -54,10 +54,10 @@ def check(pid, tier, replay):
         "coverage": {"states": max(states, 1), "transitions": max(trans, 1), "traces_validated_against_impl": len(cases), "evaluations": len(rows),
                      "distinct_nontrivial": len(set(cases)), "samples": [json.loads(cases[i]) for i in sorted(set([0, len(cases) // 2, len(cases) - 1]))][:3],
                      "cases_fully_delivered": delivered, "trace_events": len(rows), "exhaustive": True,
-                     "rule": "every configuration that differs from the base in at most 2 (thorough: 3) of 17 parameters, all palette values: max-frame-size of either side 512..64Ki, "
+                     "rule": "every configuration that differs from the base in at most 2 (thorough: 3) of 18 parameters, all palette values: max-frame-size of either side 512..64Ki, "
                              "incoming / outgoing windows 1..5000, credit Manual / Auto(1,2,10,200), snd / rcv settle modes, channel capacities 1 / 2 / 256, transport pipe 64 B..64 KiB, "
                              "byte-stream chunk patterns (1 byte, 3+7, 500+1+12, whole), direction client->listener and listener->client, sequential and pipelined sends, auto-accept, "
-                             "four message sequences (all section combinations, 0 B..20 KB, 25 small, sizes around the frame boundary); thorough adds the multi-threaded runtime"},
+                             "one to three concurrent links on one or two sessions, four message sequences (all section combinations, 0 B..20 KB, 25 small, sizes around the frame boundary); thorough adds the multi-threaded runtime"},
         "assumptions": ["single-threaded lock-step runs sample the schedule space through chunk patterns and capacities; the multi-threaded runs (thorough) add real preemption but are not exhaustive",
                         "the receiving application accepts every delivery"],
     }
